@@ -38,6 +38,27 @@ fn kamino_reserve(avail: u64, supply: u64, dec: u64, slot: u64) -> kamino_mocks:
     r.slot = slot;
     r
 }
+fn au128(a: &[Value], i: usize) -> Result<u128, String> {
+    u128::try_from(arg(a, i)?).map_err(|_| "BadArgU128".to_string())
+}
+/// kamino reserve with all five components of its total supply: args = avail, borrowed_sf, protocol_sf, referrer_sf, pending_sf (U68F60 bits)
+fn kamino_reserve_full(a: &[Value], off: usize) -> Result<kamino_mocks::state::MinimalReserve, String> {
+    let mut r: kamino_mocks::state::MinimalReserve = bytemuck::Zeroable::zeroed();
+    r.available_amount = au64(a, off)?;
+    r.borrowed_amount_sf = au128(a, off + 1)?.to_le_bytes();
+    r.accumulated_protocol_fees_sf = au128(a, off + 2)?.to_le_bytes();
+    r.accumulated_referrer_fees_sf = au128(a, off + 3)?.to_le_bytes();
+    r.pending_referrer_fees_sf = au128(a, off + 4)?.to_le_bytes();
+    Ok(r)
+}
+/// solend reserve with the three components of its total liquidity: args = avail, borrowed_wads, fees_wads (10^18-scaled)
+fn solend_reserve_full(a: &[Value], off: usize) -> Result<solend_mocks::state::SolendMinimalReserve, String> {
+    let mut r: solend_mocks::state::SolendMinimalReserve = bytemuck::Zeroable::zeroed();
+    r.liquidity_available_amount = au64(a, off)?;
+    r.liquidity_borrowed_amount_wads = au128(a, off + 1)?.to_le_bytes();
+    r.liquidity_accumulated_protocol_fees_wads = au128(a, off + 2)?.to_le_bytes();
+    Ok(r)
+}
 fn solend_reserve(avail: u64, supply: u64, dec: u8, slot: u64) -> solend_mocks::state::SolendMinimalReserve {
     let mut r: solend_mocks::state::SolendMinimalReserve = bytemuck::Zeroable::zeroed();
     r.liquidity_available_amount = avail;
@@ -82,6 +103,26 @@ fn eval(f: &str, a: &[Value]) -> Result<Value, String> {
         "kamino.roundtrip" => {
             let r = kamino_reserve(au64(a, 1)?, au64(a, 2)?, arg(a, 3)? as u64, 0);
             res_u(r.liquidity_to_collateral(au64(a, 0)?).and_then(|c| r.collateral_to_liquidity(c)))
+        }
+        "kamino.sf" => opt_i(Some(kamino_mocks::state::u68f60_to_i80f48(au128(a, 0)?.to_le_bytes()).to_bits())),
+        "kamino.total" => opt_i(Some(kamino_reserve_full(a, 0)?.calculate_total_supply_i80f48().to_bits())),
+        "kamino.full.c2l" => {
+            // args: amount, avail, borrowed_sf, protocol_sf, referrer_sf, pending_sf, collateral supply, decimals
+            let mut r = kamino_reserve_full(a, 1)?;
+            r.mint_total_supply = au64(a, 6)?;
+            r.mint_decimals = arg(a, 7)? as u64;
+            res_u(r.collateral_to_liquidity(au64(a, 0)?))
+        }
+        "solend.wad" => opt_i(solend_mocks::state::decimal_to_i80f48(au128(a, 0)?.to_le_bytes()).ok().map(|x| x.to_bits())),
+        "solend.total" => opt_i(solend_reserve_full(a, 0)?.calculate_total_liquidity().ok().map(|x| x.to_bits())),
+        "solend.rate.c2l" | "solend.rate.l2c" => {
+            // args: amount, avail, borrowed_wads, fees_wads, collateral supply
+            let mut r = solend_reserve_full(a, 1)?;
+            r.collateral_mint_total_supply = au64(a, 4)?;
+            match solend_mocks::state::CollateralExchangeRate::from_reserve(&r) {
+                Ok(x) => res_u(if f == "solend.rate.c2l" { x.collateral_to_liquidity(au64(a, 0)?) } else { x.liquidity_to_collateral(au64(a, 0)?) }),
+                Err(_) => json!({"def": false}),
+            }
         }
         "kamino.stale" => json!({"def": true, "b": kamino_reserve(1, 1, 6, au64(a, 0)?).is_stale(au64(a, 1)?)}),
         "solend.c2l" => res_u(solend_reserve(au64(a, 1)?, au64(a, 2)?, arg(a, 3)? as u8, 0).collateral_to_liquidity(au64(a, 0)?)),
